@@ -1151,6 +1151,12 @@ impl TypeChecker {
     ) -> TypeResult<(&'a Meta<Identifier>, Declaration)> {
         let mut ident = idents.next().unwrap();
 
+        // Only the first identifier of a path is looked up through the
+        // enclosing scopes and their imports. After a leading `super` we are
+        // already inside a module, so what follows has to be one of its
+        // direct members.
+        let mut recurse = true;
+
         while ident.node == "super".into() {
             let Some(dec) = self.type_info.scope_graph.parent_module(scope)
             else {
@@ -1166,6 +1172,7 @@ impl TypeChecker {
             };
 
             scope = s;
+            recurse = false;
 
             let Some(tmp_ident) = idents.next() else {
                 return Ok((ident, dec));
@@ -1178,7 +1185,6 @@ impl TypeChecker {
         // The current implementation is a bit strange because it uses
         // resolve_name, but after the first identifier, it should actually
         // not really traverse the scope graph.
-        let mut recurse = true;
         loop {
             if ident.node == "super".into() {
                 return Err(self.error_simple(
